@@ -533,7 +533,11 @@ pub(crate) fn load_defs(ctx: &mut Context, defs: Defs) -> Vec<String> {
                         unique.insert(&*prop.name);
                         unique.insert(&*prop.input_name);
                         unique.insert(&*prop.output_name);
-                        if input.value == Numeric::zero() || output.value == Numeric::zero() {
+                        if input.value == Numeric::zero()
+                            || input.value == Numeric::Float(0.0)
+                            || output.value == Numeric::zero()
+                            || output.value == Numeric::Float(0.0)
+                        {
                             return Err(format!(
                                 "Property {} of {} has a value of zero",
                                 prop.name, name
